@@ -16,12 +16,16 @@ CLAIM = dict(
           "class wf (non-leaf operands only at operand position 0). REFUTED outside wf (witness subtract(a, double(b))); the id "
           "uniqueness clause is refuted as well (ideal-hash model: leaves of different sub-views are both numbered 0) and, "
           "independently, no graph with more than 1033 nodes can have unique ids (range of generate_alias). PARTIAL: uniqueness of "
-          "ids only under the hypothesis that the naming is injective on the graph's nodes. Tied to the C++ by 25 functor pipelines "
-          "x every curry split (functor result vs direct view call vs reference), 30 view trees of depth 1..4 (apply of the "
+          "ids only under the hypothesis that the naming is injective on the graph's nodes. The functor theorems are stated for "
+          "MULTI-output functors (fmap returns a list of results; the combinators are instances), so 'results in front, remaining "
+          "operands behind' is part of curry_any_split / compose_apply. Tied to the C++ by 36 functor pipelines x every curry split "
+          "incl. surplus operands (functor result vs direct view call vs reference), 30 view trees of depth 1..4 (apply of the "
           "extraction, operand ADDRESSES, get_compute_graph canonicalised by first occurrence)."),
     ref="5.14", technique="Coq proof (stack-machine compilation, induction on trees / chunk lists) + differential correspondence", extra="")
-RULE = ("25 pipelines (single functors with/without attributes, compositions of 2..4 functors, binary functors in every position, "
-        "both parenthesisations, combinators swap/dup/dig2/bury2) x all splits of 1..3 operands x random square operands; 30 view "
+RULE = ("36 pipelines (single functors with/without attributes, compositions of 2..4 functors, binary functors in every position, "
+        "both parenthesisations; pipelines ending in every combinator swap/dup/dig1..3/bury1..3 followed by the non-commutative "
+        "subtract/matmul, and a combinator in the middle) x EVERY split of the operands into calls, including every split that "
+        "supplies one operand more than the pipeline consumes in the completing call (result = operand tuple) x random square operands; 30 view "
         "trees depth 1..4 x leaf kinds (run-time shaped ndarray; fixed_ndarray for the binary-ufunc trees) x random operands. "
         "non-trivial = composition of >= 2 functors or tree of depth >= 2; distinct = distinct case lines")
 THEOREM_STATUS = {"proved": ["C14_curry_any_split", "C14_compose_apply", "C14_compose_assoc", "C14_compose_two", "C14_combinators",
@@ -38,10 +42,10 @@ UFUNC2 = {"add", "sub", "mul"}
 
 
 def drivers(tier):
-    # one key: the four builds run in parallel; each driver answers "unsupported" to the other's ops.
+    # two keys = two build groups of two compile jobs each (at most 3 compile jobs at once on the shared machine);
     # asan: -O0 -g0 (compile time; the sanitizer checks are the same)
-    return {"c14": [("c14.cpp", "ndebug", ()), ("c14.cpp", "asan", ("-O0", "-g0")),
-                    ("c14x.cpp", "ndebug", ()), ("c14x.cpp", "asan", ("-O0", "-g0"))]}
+    return {"c14": [("c14.cpp", "ndebug", ()), ("c14.cpp", "asan", ("-O0", "-g0"))],
+            "c14x": [("c14x.cpp", "ndebug", ()), ("c14x.cpp", "asan", ("-O0", "-g0"))]}
 
 
 def _table(src, macro):
@@ -54,7 +58,11 @@ def _table(src, macro):
 PIPES = [(n, int(k)) for n, k in _table("c14.cpp", "PIPES")]          # (pipeline, arity)
 TREES = [(n, int(g)) for n, g in _table("c14x.cpp", "TREES")]         # (tree, get_compute_graph compiles)
 FIXTREES = [n for n, _ in _table("c14x.cpp", "FIXTREES")]
-SPLITS = {1: ["1"], 2: ["2", "1+1"], 3: ["3", "1+2", "2+1", "1+1+1"]}
+def _comps(t): return [[]] if t == 0 else [[k] + r for k in range(1, t + 1) for r in _comps(t - k)]
+def splits(arity):
+    """every way to supply the operands: all compositions of `arity`, plus all compositions of arity+1 in which the
+    surplus operand arrives in the call that completes the pipeline (last chunk >= 2): 'remaining operands passed on'"""
+    return ["+".join(map(str, c)) for c in _comps(arity) + [c for c in _comps(arity + 1) if c[-1] >= 2]]
 
 
 # ---------------------------------------------------------------- trees
@@ -90,22 +98,23 @@ def rnd(rng, n, lo=-4, hi=9): return A((n, n), [rng.randint(lo, hi) for _ in ran
 
 def gen_cases(rng, tier):
     out = []
-    reps = 3 if tier == "quick" else 25
+    reps = 2 if tier == "quick" else 12
     for name, k in PIPES:
-        for split in SPLITS[k]:
+        for split in splits(k):
             for _ in range(reps):
                 n = rng.choice([1, 2, 2, 3])
                 a = rnd(rng, n, 0, 1) if name == "where" else rnd(rng, n)
-                out.append(("pipelines", "pipe S:%s S:%s %s %s %s" % (name, split, a, rnd(rng, n), rnd(rng, n)), "c14"))
+                out.append(("pipelines-combinator" if re.search(r"swap|dup|dig|bury", name) else "pipelines",
+                            "pipe S:%s S:%s %s %s %s %s %s" % (name, split, a, rnd(rng, n), rnd(rng, n), rnd(rng, n), rnd(rng, n)), "c14"))
     reps = 4 if tier == "quick" else 30
     for name, g in TREES:
         for _ in range(reps):
             n = rng.choice([1, 2, 2, 3, 3])
             stream = "trees-wf" if wf(parse(name)) else "trees-outside-wf"
-            out.append((stream, "ext S:dyn S:%s S:%s %s %s %s" % ("g1" if g else "g0", name, rnd(rng, n), rnd(rng, n), rnd(rng, n)), "c14"))
+            out.append((stream, "ext S:dyn S:%s S:%s %s %s %s" % ("g1" if g else "g0", name, rnd(rng, n), rnd(rng, n), rnd(rng, n)), "c14x"))
     for name in FIXTREES:
         for _ in range(reps):
-            out.append(("trees-fixed-kind", "ext S:fix S:g0 S:%s %s %s %s" % (name, rnd(rng, 2), rnd(rng, 2), rnd(rng, 2)), "c14"))
+            out.append(("trees-fixed-kind", "ext S:fix S:g0 S:%s %s %s %s" % (name, rnd(rng, 2), rnd(rng, 2), rnd(rng, 2)), "c14x"))
     # (index::generate_alias is modelled and has a handler, but hash VALUES are not fixed by the property:
     #  no case compares them, so a change of base/prime stays green)
     return out
